@@ -31,7 +31,15 @@ def _solver_input(a, ev, r):
   spec = TH.add(minv, TH.smul(a.self.balance_param, TH.mm(TH.colscale(TH.tr(D), yt), D)))
   got = gl[0][1]
   alpha_ok = isinstance(got['alpha'], VReal) and got['alpha'].t.eq(a.self.raw('sparsity_param').t)
-  return z3.And(z3.BoolVal(alpha_ok), p.store[got['emp_cov'].loc].term == spec)
+  if not alpha_ok:
+    return z3.BoolVal(False)
+  got_t = p.store[got['emp_cov'].loc].term
+  if got_t is not None and z3.simplify(got_t).eq(z3.simplify(spec)):
+    return z3.BoolVal(True)
+  # another spelling of the matrix: whether it denotes the documented one is an algebraic question about matrix terms the solver cannot be
+  # trusted to settle either way (e.g. "scatter of the similar pairs minus scatter of the dissimilar pairs" is the same matrix only for
+  # labels in {-1,+1}) -- term recognition, decided by the stand-in's failing input if there is one
+  return PatternMismatch('matrix handed to graphical_lasso vs prior_inv + balance_param * (D^T * y) D')
 
 
 def _vetted(a, ev, r):
